@@ -61,14 +61,14 @@ func init() {
 		}
 		crits := []*m.Crit{nil, m.Leaf("gte", "x", int64(1)), m.And(m.Leaf("gt", "x", int64(0)), m.Leaf("lte", "x", "a")), m.Or(m.Leaf("eq", "y", int64(1)), m.NotExists("x")), m.Leaf("lte", "y", int64(2))}
 		twins := Twins(false)[:4]
-		twins = append(twins, Twins(false)[7]) // n.a
+		twins = append(twins, Twins(false)[7], Twins(false)[10], Twins(false)[11]) // n.a, _id, _id+x
 		backends := []string{drv.BBolt}
 		if tier == "thorough" {
 			backends = append(backends, drv.Badger)
 		}
-		cfg := &eng.QSConfig{Name: "default", Backends: backends, Docs: eng.DefaultDataset(), Twins: twins, Crits: crits, Shapes: shapes, Reads: true, Own: own("find")}
+		cfg := &eng.QSConfig{Name: "default", Backends: backends, Docs: eng.DefaultDataset(), Twins: twins, Crits: crits, Shapes: shapes, Reads: true, Own: own("find", "derived")}
 		eng.QuerySweep(cfg, run)
 		run.Set("distinct_nontrivial", run.DistinctCount("results"))
-		return "every sort option list (each of x, y, _id, n.a with directions -7,-1,0,1,5; every ordered pair of distinct fields with four direction pairs; Sort() without options; no sort) x skip,limit in {-1,0,1,2,size-1,size,size+1}^2 (plus unset) x 5 criteria (none, ranges on the sort field, Or/NotExists) on twins without index and with indexes on x, y, x+y, n.a, over a 13-document collection with duplicate, missing, nil and mixed-type keys; oracle: the returned sort-key tuples equal the window [n,n+m) of the reference-sorted selection (absent = nil); unsorted: count min(m,max(0,total-n)), distinct, all matching; distinct = distinct result signatures"
+		return "every sort option list (each of x, y, _id, n.a with directions -7,-1,0,1,5; every ordered pair of distinct fields with four direction pairs; Sort() without options; no sort) x skip,limit in {-1,0,1,2,size-1,size,size+1}^2 (plus unset) x 5 criteria (none, ranges on the sort field, Or/NotExists) on twins without index and with indexes on x, y, x+y, n.a, over a 13-document collection with duplicate, missing, nil and mixed-type keys; oracle: the returned sort-key tuples equal the window [n,n+m) of the reference-sorted selection (absent = nil); unsorted: count min(m,max(0,total-n)), distinct, all matching; Count of the same query equals the number of documents returned; distinct = distinct result signatures"
 	})
 }
